@@ -5,6 +5,8 @@
 import BumpProof.Props.C11
 import BumpProof.Lemmas.MemFresh
 
+set_option linter.unusedSimpArgs false
+
 namespace Arena
 open Rs
 
